@@ -5,7 +5,7 @@
    loan/send/send_copy, receive, drops of every object in any order, set_disconnect_hint,
    has_requests) with ANY polling order, for the configuration g (all limits, overflow and
    fire-and-forget flags, numbers of client / server slots are universally quantified). *)
-From V Require Import model.Base model.ReqRes proofs.ReqResProofs proofs.ReqResInv proofs.ReqResRoute.
+From V Require Import model.Base model.ReqRes proofs.ReqResProofs proofs.ReqResInv proofs.ReqResRoute proofs.ReqResLink.
 Open Scope N_scope.
 
 (* ---- the channel-state word ------------------------------------------------------------- *)
@@ -221,14 +221,29 @@ Theorem c11_reqres_never_oom_partial : forall g s cl hid s',
   exists c, get_client s' cl = Some c /\ nreq g <= rc_used (cl_rc c).
 Proof. exact client_loan_oom_exact. Qed.
 Print Assumptions c11_reqres_never_oom_partial.
-(* NOT proved (visible on purpose): the link from a condition on the HISTORY to the hypothesis of
-   c11_routing_under_send_ok -- if no client ever takes over a dynamic-config slot that another
-   client had before (s_idxlog records (client, slot) of every client ever registered), no
-   response is handed out to a foreign client.  Tied by the correspondence runs: the extracted
-   hypothesis step_send_okb is evaluated on every step of every history and failed only in
-   histories that create a client after a client was dropped. *)
+(* The link from a condition on the HISTORY to the hypothesis of c11_routing_under_send_ok:
+   s_idxlog records (client, slot) of every client ever registered in the dynamic config; if no
+   slot was ever taken over by a second client (the exclusion of the known finding
+   routing:stale-active-request-reaches-new-client, stated on the whole history), every
+   response handed out carries the request id of its pending response AND answers a request
+   of the same client.  Invariant (proofs/ReqResLink.v refs_ok): every reference to a slot --
+   the registry, every server's sender connection vector, every ActiveRequest, every loaned
+   response -- names a (client, slot) pair of the log. *)
 Definition c11_routing_slot_link_full : Prop := forall g s, reach g s ->
   NoDup (map snd (s_idxlog s)) -> forall p m, In (p, m) (s_rlog s) -> p_ocl m = pn_cl p.
+Theorem c11_routing_slot_link : c11_routing_slot_link_full.
+Proof. intros g s H Hn p m Hin. exact (proj2 (routing_slot_link g s H Hn p m Hin)). Qed.
+Print Assumptions c11_routing_slot_link.
+Theorem c11_routing_no_slot_reuse : forall g s, reach g s -> NoDup (map snd (s_idxlog s)) ->
+  (forall p m, In (p, m) (s_rlog s) -> p_rid m = q_rid (pn_msg p) /\ p_ocl m = pn_cl p) /\ reach_ok g s.
+Proof. intros g s H Hn. split; [exact (routing_slot_link g s H Hn)|exact (proj1 (slot_link g s H Hn))]. Qed.
+Print Assumptions c11_routing_no_slot_reuse.
+Example c11_routing_slot_link_nonvacuous :
+  reach cfg3 (run cfg3 (w_reuse ++ [Pr 0])) /\ NoDup (map snd (s_idxlog (run cfg3 (w_reuse ++ [Pr 0])))) /\
+  length (s_rlog (run cfg3 (w_reuse ++ [Pr 0]))) = 1%nat /\
+  map snd (s_idxlog (run cfg1 w_routing)) = [0; 0].
+Proof. split; [apply reach_run|]. split; [exact (proj1 w_reuse_no_slot_reuse)|]. split; [exact (proj2 w_reuse_no_slot_reuse)|exact w_routing_slot_reuse]. Qed.
+Print Assumptions c11_routing_slot_link_nonvacuous.
 (* NOT proved (visible on purpose): conservation of the reference counts (stored counter =
    holders + queued + borrowed + not yet reclaimed), request delivery exactly once per connected
    server, per-(server, request) response order.  They are tied by the correspondence runs only. *)
